@@ -1032,7 +1032,14 @@ func (w *World) WriteDir(dir string, assignment []int, extra map[string]string) 
 	}
 	sort.Ints(keys)
 	for _, k := range keys {
-		if err := os.WriteFile(filepath.Join(dir, fmt.Sprintf("f%02d.yaml", k)), []byte(files[k].String()), 0o644); err != nil {
+		// every second and third file lives below the top directory: the commands read a directory with everything under it
+		sub := [3]string{"", "sub", filepath.Join("deep", "er")}[k%3]
+		if sub != "" {
+			if err := os.MkdirAll(filepath.Join(dir, sub), 0o755); err != nil {
+				return err
+			}
+		}
+		if err := os.WriteFile(filepath.Join(dir, sub, fmt.Sprintf("f%02d.yaml", k)), []byte(files[k].String()), 0o644); err != nil {
 			return err
 		}
 	}
